@@ -490,9 +490,11 @@ class C18(core.Check):
         "decided exactly per case by the request c18.clear) the model returns the predicted numbering for every input "
         "numbering, triangle order and choice of diagonals (T_C18_clear_view, T_C18_canonicalises), it is one of the 48 "
         "relabellings of the input and right-handed; guards/constants/recipes of the source are regenerated with ast and "
-        "tied to the model (T_C18_tie_*). Only validator/oracle-checked: that the returned numbering satisfies Canonical "
-        "as stated on the side area vectors (the theorem is stated on the hull triangles; the two coincide for planar "
-        "sides), that views without a clear winner give one of the 48 relabellings, and that scipy's hull is a "
+        "tied to the model (T_C18_tie_*); round 6b: for planar-sided right-handed blocks a clear view implies Canonical "
+        "(T_C18_clear_view_canonical), vertex objects at one position (merged patches) are returned together "
+        "(T_C18_duplicates_together), get_common_point rejects with DegenerateGeometryError only (repair 70219c0). Only "
+        "validator/oracle-checked: that the returned numbering of a block with warped sides satisfies Canonical "
+        "as stated on the side area vectors (the theorem is stated on the hull triangles), that views without a clear winner give one of the 48 relabellings, and that scipy's hull is a "
         "triangulation of the six sides (hypothesis of the theorem, decided per case)."
     )
 
